@@ -66,6 +66,11 @@ func main() {
 	// 1b. files added to package goat itself (exports for enumeration)
 	mapTree(filepath.Join(*ovl, "goatpkg"), *repo, replace)
 
+	// 1c. engine litmus programs: a package of goat's module, instrumented exactly like goat's own code
+	if _, err := os.Stat(filepath.Join(*ovl, "litmus")); err == nil {
+		instrumentDir(filepath.Join(*ovl, "litmus"), filepath.Join(*out, "goat", "litmus"), filepath.Join(*repo, "litmus"), false, replace, stats)
+	}
+
 	// 2. runtime: mapped as is
 	mapTree(filepath.Join(*ovl, "vrt"), filepath.Join(*repo, "vrt"), replace)
 
@@ -670,7 +675,11 @@ func (r *rewriter) rangeMap(s *ast.RangeStmt) ast.Stmt {
 	}
 	body := r.node(s.Body).(*ast.BlockStmt)
 	body.List = append(head, body.List...)
-	return &ast.RangeStmt{Key: ast.NewIdent("_"), Value: kv, Tok: token.DEFINE, X: r.call("MapKeys", m), Body: body}
+	fn := "MapKeys" // goat's own loops: the starting point of the iteration is an (exploration-cost 1) choice
+	if r.harness {
+		fn = "MapKeysSorted" // harness loops: fixed order
+	}
+	return &ast.RangeStmt{Key: ast.NewIdent("_"), Value: kv, Tok: token.DEFINE, X: r.call(fn, m), Body: body}
 }
 
 func (r *rewriter) rangeChan(s *ast.RangeStmt) ast.Stmt {
